@@ -109,6 +109,14 @@ impl<'a> StringLexer<'a> {
                 }
             },
 
+            // an unescaped end-of-line marker (CR, LF or CR LF) stands for one LF
+            b'\r' => {
+                if let Ok(b'\n') = self.peek_byte() {
+                    let _ = self.next_byte();
+                }
+                Ok(Some(b'\n'))
+            },
+
             c => Ok(Some(c))
 
         }
